@@ -383,8 +383,10 @@ class Pipe:
         self.st.label("op_set_start")
 
     def _band_edges(self):
-        cf, bw, nchan = O.hz(self.z.center_freq), O.hz(self.z.chan_bw), self.z.shape[1]
-        return cf - bw * nchan / 2, cf + bw * nchan / 2, cf
+        """lowest / highest frequency present (outermost channel labels -+ half a channel; see C05 / F33), centre frequency"""
+        cf, bw = O.hz(self.z.center_freq), O.hz(self.z.chan_bw)
+        labels = O.hz_arr(self.z.channel_freqs)
+        return min(labels) - bw / 2, max(labels) + bw / 2, cf
 
     def _ref(self, refsel):
         lo, hi, cf = self._band_edges()
